@@ -35,6 +35,8 @@ def build_msg(spec: Dict[str, Any]) -> Dict[str, Any]:
     msg: Dict[str, Any] = {"type": t}
     if "status" in spec:
         msg["status"] = spec["status"]
+    if "status_raw" in spec:
+        msg["status"] = spec["status_raw"]   # (what the application really passes; "status" is what it means)
     if "headers" in spec:
         msg["headers"] = [(_b(n), _b(v)) for n, v in spec["headers"]]
     if "trailers" in spec:
